@@ -482,7 +482,7 @@ func c15Seeds() (xmls, jsons [][]byte, gob []byte) {
 	return xmls, jsons, g
 }
 
-var c15Alphabet = []byte{'<', '>', '/', '&', '"', '=', '{', '}', '[', ']', '\\', 'a', ' ', 0xFF, '\v', '\f'}
+var c15Alphabet = []byte{'<', '>', '/', '&', '"', '=', '{', '}', '[', ']', '\\', 'a', ' ', 0xFF, '\v', '\f', '-', '+', '.', 'e'}
 
 // mutate enumerates every truncation, deletion, substitution and insertion (deviation bound 1).
 func mutate1(seed []byte, f func(b []byte)) {
@@ -509,7 +509,7 @@ func mutate1(seed []byte, f func(b []byte)) {
 
 func c15Run(c *Ctx) {
 	mustBeDefault(c)
-	c.S.Rule = "part (a): seed documents (11 XML incl. mixed content with number-like text, prolog/comments/PIs/CDATA/namespaces/BOM/two roots/DOCTYPE, 8 JSON incl. braces and quotes in strings, a trailing escaped backslash and numbers outside the float64 range, 1 gob) x every truncation, single-byte deletion, substitution and insertion from {< > / & \" = { } [ ] \\ a space 0xFF VT FF} at every offset (deviation bound 1; pairs of deviations on the seeds of up to 40 bytes in thorough) x every decoder form (byte, reader - as pointer, function-typed and by-value struct readers, each non-pointer kind twice in a row -, ByteReader, raw, bulk handlers, formatted, BeautifyXml, gob, x2j-wrapper Unmarshal/DocToMap), the XML deviations of bound 1 again under 4 non-default decoder option settings (simple-values-as-map; keep-spaces; both with tag sequence numbers; empty attribute prefix + '_' key prefix + lower/snake-case keys + decoder-side escaping + int and NaN/Inf casting), plus readers that stall with (0,nil) for ever after every prefix length; oracle: no panic, termination (reader horizon), fails iff the standard tokenizer rejects the first document (Token for the Map decoders, RawToken + name matching for the sequence decoders, encoding/json for JSON), no partial Map with an error, documented no-root result, and the decoded Map encodes without panic. part (b): Maps with <= 4 nodes over keys {a, k, \"\"} and Maps with <= 3 nodes over keys that look like path syntax {a, *, a[0], a.k} x malformed and well-formed path / key / sub-key / new-value / key-pair strings x every query and update method and the x2j-wrapper walkers; oracle: no panic, and termination (a budget of 400000 function entries / loop iterations per call, enforced by the instrumentation, turns unbounded recursion into a reported violation). non-trivial = distinct (api, outcome) pairs are counted in distinct_outcomes; every case counts."
+	c.S.Rule = "part (a): seed documents (11 XML incl. mixed content with number-like text, prolog/comments/PIs/CDATA/namespaces/BOM/two roots/DOCTYPE, 8 JSON incl. braces and quotes in strings, a trailing escaped backslash and numbers outside the float64 range, 1 gob) x every truncation, single-byte deletion, substitution and insertion from {< > / & \" = { } [ ] \\ a space 0xFF VT FF - + . e} at every offset (deviation bound 1; pairs of deviations on the seeds of up to 40 bytes in thorough) x every decoder form (byte, reader - as pointer, function-typed and by-value struct readers, each non-pointer kind twice in a row -, ByteReader, raw, bulk handlers, formatted, BeautifyXml, gob, x2j-wrapper Unmarshal/DocToMap), the XML deviations of bound 1 again under 4 non-default decoder option settings (simple-values-as-map; keep-spaces; both with tag sequence numbers; empty attribute prefix + '_' key prefix + lower/snake-case keys + decoder-side escaping + int and NaN/Inf casting), plus readers that stall with (0,nil) for ever after every prefix length; oracle: no panic, termination (reader horizon), fails iff the standard tokenizer rejects the first document (Token for the Map decoders, RawToken + name matching for the sequence decoders, encoding/json for JSON), no partial Map with an error, documented no-root result, and the decoded Map encodes without panic. part (b): Maps with <= 4 nodes over keys {a, k, \"\"} and Maps with <= 3 nodes over keys that look like path syntax {a, *, a[0], a.k} x malformed and well-formed path / key / sub-key / new-value / key-pair strings x every query and update method and the x2j-wrapper walkers; oracle: no panic, and termination (a budget of 400000 function entries / loop iterations per call, enforced by the instrumentation, turns unbounded recursion into a reported violation). non-trivial = distinct (api, outcome) pairs are counted in distinct_outcomes; every case counts."
 	c.S.Assumptions = []string{"reference acceptance = encoding/xml Token()/RawToken()+nesting, encoding/json Decoder"}
 	xmls, jsons, gob := c15Seeds()
 	xmlAPIs := []string{"NewMapXml", "NewMapXml(cast)", "NewMapXmlReader", "NewMapXmlReader(ByteReader)", "NewMapXmlReaderRaw", "NewMapXmlSeq", "NewMapXmlSeq(cast)",
